@@ -28,7 +28,7 @@ type vscript struct {
 
 func vDrawScript(n int, withSelection bool) *vscript {
 	s := &vscript{n: n}
-	for i := 1; i <= n; i++ {
+	for i := 1; i <= n+1; i++ {
 		s.curBlock[i], s.curErr[i], s.waitErr[i] = vU64(), vBool(), vBool()
 		// symbolic (not vRange): the outcome forks only when that attempt is reached
 		s.announce[i] = int(vU8())
@@ -171,17 +171,22 @@ func vSigningLoop(withSelection bool) {
 		}
 		return nil
 	}
+	curCalls := 0
 	curFn := func() (uint64, error) {
 		k := srl.attemptCounter
-		if int(k) > n {
+		curCalls++
+		if int(k) > n || k == 0 || curCalls > n+1 { // bound the run (also when an implementation repeats an attempt number)
 			cancel()
 			return 0, vErr
 		}
-		lastCur, lastCurOK = s.curBlock[k], !s.curErr[k]
-		if s.curErr[k] {
+		// current-block answers are scripted per loop iteration (not per attempt
+		// number), so an implementation that repeats a number sees fresh answers
+		i := curCalls
+		lastCur, lastCurOK = s.curBlock[i], !s.curErr[i]
+		if s.curErr[i] {
 			return 0, vErr
 		}
-		return s.curBlock[k], nil
+		return s.curBlock[i], nil
 	}
 	var lastAttempt uint
 	attemptFn := func(p *signingAttemptParams) (*signing.Result, uint64, error) {
